@@ -176,7 +176,9 @@ pub fn tagged_to_json(t: &Value) -> Result<Value, String> {
                 let q = t["q"].as_i64().ok_or("num.q")?;
                 let u = t.get("u").and_then(|x| x.as_i64()).unwrap_or(0);
                 let e = t.get("e").and_then(|x| x.as_i64()).unwrap_or(0);
-                if e != 0 {
+                if t.get("z").and_then(|x| x.as_bool()).unwrap_or(false) {
+                    json!(-0.0f64)          // zero with its sign bit set: the same number as 0 (field z is only read here)
+                } else if e != 0 {
                     serde_json::from_str::<Value>(&format!("{}e{}", p, e)).map_err(|e| e.to_string())?
                 } else if u != 0 {
                     json!(from_ordered(ordered((p as f64) / (q as f64)) + u))
@@ -383,3 +385,16 @@ pub fn guarded<F: FnOnce() -> Value>(f: F) -> Value {
         }
     }
 }
+
+/// the sign bit of a zero (field z of a tagged number) is for building documents only: for the specification -0.0 is the number 0
+pub fn without_sign_of_zero(v: &Value) -> Value {
+    match v {
+        Value::Array(a) => Value::Array(a.iter().map(without_sign_of_zero).collect()),
+        Value::Object(m) => {
+            let num = m.get("t").and_then(|t| t.as_str()) == Some("num");
+            Value::Object(m.iter().filter(|(k, _)| !(num && k.as_str() == "z")).map(|(k, x)| (k.clone(), without_sign_of_zero(x))).collect())
+        }
+        other => other.clone(),
+    }
+}
+
